@@ -132,6 +132,7 @@ func (e *Engine) verifyCase(fn *ssa.Function, c *Contract, caseName string, res 
 			}
 			fi.Bind = append(fi.Bind, v)
 			vc.inputs["fv:"+fv.Name()] = v
+			env["&"+fv.Name()] = v
 		}
 		fr.closure = fi
 	}
